@@ -365,7 +365,7 @@ def run(ctx):
                 st = {i for i, j, p, rv, line in b.assigns() if p[0] in vl and not p[1] and rv[0] == "use" and rv[1][0] == "k" and rv[1][1].get("b") is True}
                 r.check(any(b.dominates(i, c.block) or b.dominates(c.block, i) for i in st), tag + "vote=>voted:=true", c.loc(), "the task records voted = true around vote()", "vote() without recording voted = true")
 
-    with ctx.rule("C17.R10", "T2", "downlink read task: taking on a consumer withdraws an outstanding vote before the task waits again", floor=3) as r:
+    with ctx.rule("C17.R10", "T2", "downlink read task: taking on a consumer withdraws an outstanding vote before the task waits again", floor=2) as r:
         # A vote says "I am idle". A consumer that attaches - in whatever state the link is - gives the read task work: if it has voted, the vote
         # must be rescinded (the `voted` test) before the next wait; otherwise the write task's later vote makes the stop unanimous while a consumer
         # is attached and being served.
@@ -377,7 +377,9 @@ def run(ctx):
         tests = {sb for sb in range(rdt.n) if rdt.term(sb)["k"] == "switch" and op_place(rdt.term(sb)["discr"]) is not None and rdt.copy_root(op_place(rdt.term(sb)["discr"])) in vl}
         waits = {sb for sb in range(rdt.n) if rdt.term(sb)["k"] == "yield"}
         takes = [c for c in rdt.calls if c.name == "push" and len(c.args) > 1 and op_place(c.args[1]) is not None and "DownlinkSender" in rdt.locals[op_place(c.args[1])[0]]]
-        if len(takes) < 3 or not tests or not waits:
+        # (a consumer moved from one phase vector to the next by a spliced helper is not a new one: only the arm that receives a new consumer counts)
+        takes = [c for c in takes if any(l == "NewConsumer" for d, l, _ in dom_guards(rdt, c.block))]
+        if len(takes) < 2 or not tests or not waits:
             raise AnchorMissing("downlink read_task: consumer pushes %d, voted tests %d, waits %d" % (len(takes), len(tests), len(waits)))
         for c in takes:
             ok, wit = rdt.must_pass(rdt.succ[c.block], tests, targets=waits | set(rdt.exits()))
